@@ -296,6 +296,35 @@ func (in *instr) funcBody(body *ast.BlockStmt) {
 		switch x := n.(type) {
 		case *ast.GoStmt:
 			c.Replace(in.goStmt(x))
+		case *ast.DeferStmt:
+			// "defer simrt.Pre(r, site).M(args)" would run the preemption point when the defer statement is
+			// reached; the point belongs in front of the deferred call itself. Receiver and arguments keep
+			// being evaluated at the defer statement:
+			//   defer func() func() { r := R; a0 := A0; return func() { simrt.Pre(r, site).M(a0) } }()()
+			if se, ok := x.Call.Fun.(*ast.SelectorExpr); ok && x.Call.Ellipsis == token.NoPos {
+				if pc, ok := se.X.(*ast.CallExpr); ok && len(pc.Args) == 2 {
+					if ps, ok := pc.Fun.(*ast.SelectorExpr); ok && ps.Sel.Name == "Pre" {
+						if id, ok := ps.X.(*ast.Ident); ok && id.Name == "simrt" {
+							var setup []ast.Stmt
+							rv := ast.NewIdent("__dr")
+							setup = append(setup, &ast.AssignStmt{Lhs: []ast.Expr{rv}, Tok: token.DEFINE, Rhs: []ast.Expr{pc.Args[0]}})
+							var args []ast.Expr
+							for i, a := range x.Call.Args {
+								av := ast.NewIdent(fmt.Sprintf("__da%d", i))
+								setup = append(setup, &ast.AssignStmt{Lhs: []ast.Expr{av}, Tok: token.DEFINE, Rhs: []ast.Expr{a}})
+								args = append(args, av)
+							}
+							inner := &ast.FuncLit{Type: &ast.FuncType{Params: &ast.FieldList{}}, Body: &ast.BlockStmt{List: []ast.Stmt{
+								&ast.ExprStmt{X: call(&ast.SelectorExpr{X: call(sel("simrt", "Pre"), rv, pc.Args[1]), Sel: se.Sel}, args...)},
+							}}}
+							setup = append(setup, &ast.ReturnStmt{Results: []ast.Expr{inner}})
+							outer := &ast.FuncLit{Type: &ast.FuncType{Params: &ast.FieldList{}, Results: &ast.FieldList{List: []*ast.Field{{Type: &ast.FuncType{Params: &ast.FieldList{}}}}}}, Body: &ast.BlockStmt{List: setup}}
+							x.Call = &ast.CallExpr{Fun: &ast.CallExpr{Fun: outer}}
+							in.changed = true
+						}
+					}
+				}
+			}
 		case *ast.SendStmt:
 			c.Replace(&ast.ExprStmt{X: call(sel("simrt", "Send"), x.Chan, x.Value)})
 			total.sends++
